@@ -10,29 +10,46 @@ try:
 except Exception:   # pragma: no cover
     h11 = None
 
-HEADLINE = "TwistedProps.C19.second_framing_header_rejected"
+HEADLINE = "TwistedProps.C19.body_is_rfc_body"
 RULE = ("pipelined request streams from the grammar with framing headers in every combination (Content-Length / Transfer-Encoding, "
         "duplicates, case, whitespace, obs-fold, non-numeric and huge lengths, unknown codings), request lines with every byte value "
         "in the target, bad methods/versions/separators, header-name and value bytes over 0..255, chunked bodies with size/extension/"
         "CRLF mutations; judged by the reference parser (message by message: same request and body, next message starts where the "
-        "reference says, 400 + close + nothing further on the first invalid message); distinct = (reference verdicts, server outcome)")
+        "reference says, 400 + close + nothing further on the first invalid message); every case also runs the Lean reference parser "
+        "(driver) against the Python one (verbatim: messages, offsets, verdict) and h11 on each message it found; "
+        "distinct = (reference verdicts, server outcome)")
 ASSUMES = [
-    "the resource answers every request at once (so that pipelined requests are all parsed)",
+    "the resource answers every request at once (so that pipelined requests are all parsed) — hypothesis `AtOnce app` of the theorems",
+    "the whole-stream theorems are stated for the stream arriving in ONE delivery (what this check runs); independence of the "
+    "segmentation is property C18",
     "where RFC 9110/9112 lets a recipient either reject or tolerate (obs-fold, bare CR/LF inside a value, other CTLs in a value, "
-    "HTTP versions other than 1.0/1.1, list-valued Content-Length, codings other than a single 'chunked', size limits) both outcomes pass",
-    "persistence (Connection tokens) is not part of the property: the reference stops where the server closed after a response",
+    "HTTP versions other than 1.0/1.1, list-valued Content-Length, codings other than a single 'chunked', size limits incl. a field "
+    "line followed by an over-long line) both outcomes pass (`may` in both references; the theorems claim nothing there)",
+    "persistence (Connection tokens) is not part of the property: the reference stops where the server closed after a response; the "
+    "theorems say the same through `checkPersistence` of the request as handed over",
+    "known finding te-identity: the 400 theorem excludes the reference's class `te-identity` (counterexamples kept in Lean)",
+    "not proved (oracle only): a stream that ends inside a message hands over nothing for the incomplete message (key early-request)",
 ]
 TRUSTED = ["the reference parser in this file (read against RFC 9112 §2.2, §3, §5, §6.1, §6.3, §7.1 and RFC 9110 §5.1, §5.5, §5.6.2)",
-           "h11 as a second opinion on requests the reference accepts",
+           "the Lean reference parser lean/TwistedModel/Http/Rfc9112Request.lean (the object of the theorems; compared verbatim with the "
+           "Python one and with h11 on every case)",
+           "h11 as a second opinion on requests the references accept",
            "twisted.internet.testing.StringTransport(lenient=True); server.version / datetimeToString patched to constants"]
 MANIFEST = {
-    "text": "Lean theorems (TwistedProps/C19.lean) about the channel model: the request line accepted is exactly the RFC 9112 request line "
-            "(token method, visible-ASCII target, HTTP/1.0|1.1), every conflicting / repeated / non-numeric / unsupported framing header "
-            "yields 400 + close and no request (PARTIAL: the whole-stream statement that a delivered body is the RFC body and the next "
-            "request starts after it is checked by the oracle, not proved); model tied to http.py by differential runs; oracle = "
-            "independent reference parser + h11 on the real server's behaviour.",
-    "note": "trusts Lean kernel, the hand-written channel model (differentially tied), the Python reference parser, h11",
-    "technique": "Lean 4 proof (header-level framing rules) + differential tie + reference-parser oracle",
+    "text": "Lean theorems (TwistedProps/C19.lean) over the channel model and an independent RFC 9112 reference parser in Lean, for "
+            "every answering-at-once application and every byte stream (one delivery): body_is_rfc_body (request k handed over has "
+            "exactly the request line and body of the reference's message k, on the whole prefix the reference accepts), "
+            "no_request_from_body_bytes (request k+1 is what the reference reads at the offset where message k stops), "
+            "bad_framing_gets_400_and_stop (one theorem over all 16 rejection classes except te-identity: closing, 400 + loseConnection "
+            "are the last things done, one request per valid message, nothing later is processed), no_extra_request_partial (PARTIAL: "
+            "no extra request at end of stream / at an invalid message; the case of a stream ending inside a message is oracle-only); "
+            "te-identity counterexamples at header and stream level; header-level theorems of round 1 kept. Model tied to http.py by "
+            "differential runs; the Lean reference tied verbatim to the Python reference and to h11 on every case; oracle = Python "
+            "reference + h11 on the real server's behaviour.",
+    "note": "trusts Lean kernel, the hand-written channel model (differentially tied), the Lean/Python reference parsers (tied to each "
+            "other and to h11), h11",
+    "technique": "Lean 4 proof (whole-stream simulation of the channel model against a reference parser) + differential tie + "
+                 "reference-parser oracle",
     "design_ref": "DESIGN.md §7 C19",
 }
 
@@ -54,7 +71,7 @@ class May(Exception):
 
 
 def ref_parse(stream):
-    """→ list of ("req", method, target, version, [(lower-name, value)], body) | ("bad", key) | ("may",) | ("more",)
+    """→ list of ("req", method, target, version, [(lower-name, value)], body, raw, start, stop) | ("bad", key) | ("may",) | ("more",)
     One entry per message, in order; stops at the first non-"req"."""
     out = []
     pos = 0
@@ -114,6 +131,10 @@ def ref_parse(stream):
                 if stream.find(b"\r\n", pos) < 0:
                     # a field line can only be judged once the next line is there (it may be continued by an obs-fold)
                     raise EOFError
+                if stream.find(b"\r\n", pos) - pos > 16384:
+                    # the line after it is over the line limit: a recipient enforcing the limit (LineReceiver drops the
+                    # connection, no 400) does so before it judges this field line
+                    raise May()
                 if stream[pos:pos + 1] in (b" ", b"\t"):
                     raise May()          # this field line is continued by an obs-fold
                 if b":" not in hl:
@@ -161,7 +182,7 @@ def ref_parse(stream):
                     raise EOFError
                 body = stream[pos:pos + k]
                 pos += k
-            out.append(("req", method, target, version, headers, body, stream[start:pos]))
+            out.append(("req", method, target, version, headers, body, stream[start:pos], start, pos))
         except Bad as e:
             out.append(("bad", e.key))
             break
@@ -243,7 +264,32 @@ def corpus():
         _case(b"POST / HTTP/1.1\r\nTransfer-Encoding: chunked\r\n\r\n5\r\nGET /\r\n0\r\n\r\nGET /real HTTP/1.1\r\n\r\n", ["smuggle"]),
         _case(b"POST / HTTP/1.1\r\nContent-Length: 18\r\n\r\nGET /x HTTP/1.1\r\n\r\nGET /y HTTP/1.1\r\n\r\n", ["smuggle"]),
         _case(b"GET / HTTP/1.1\r\nContent-Length: 1\r\nContent-Length: 1\r\n\r\na", ["dupcl"]),
+        # an invalid field line followed by a line over LineReceiver's limit: the connection is dropped without a 400 (limits: `may`)
+        _case(b"GET / HTTP/1.1\r\nNoColon\r\n" + b"X" * 16385 + b"\r\n\r\n", ["badhdr+longline"]),
+        _case(b"GET / HTTP/1.1\r\nNoColon\r\n" + b"X" * 16384 + b"\r\n\r\n", ["badhdr+longline"]),
+        # the examples of TwistedProps/C19.lean
+        _case(b"POST /a HTTP/1.1\r\nContent-Length: 19\r\n\r\nGET /x HTTP/1.1\r\n\r\nPOST /b HTTP/1.1\r\nTransfer-Encoding: chunked\r\n\r\n"
+              b"3\r\nabc\r\n0\r\n\r\nGET /c HTTP/1.1\r\nContent-Length: x\r\n\r\n", ["smuggle", "lean-example"]),
     ]
+    # one stream per rejection class of the reference (after a valid pipelined request), so that every class of
+    # TwistedProps.C19.bad_framing_gets_400_and_stop is exercised on the real server on every run
+    ok = b"GET /ok HTTP/1.1\r\nHost: h\r\n\r\n"
+    te = b"POST / HTTP/1.1\r\nTransfer-Encoding: chunked\r\n\r\n"
+    for key, bad in [
+        ("request-line", b"GET /\r\n\r\n"), ("method", b"G(T / HTTP/1.1\r\n\r\n"), ("target-byte", b"GET /a\x7fb HTTP/1.1\r\n\r\n"),
+        ("version", b"GET / HTTP/1.x\r\n\r\n"), ("field-line", b"GET / HTTP/1.1\r\nNoColon\r\n\r\n"),
+        ("field-name", b"GET / HTTP/1.1\r\nBad Name: v\r\n\r\n"), ("field-value-nul", b"GET / HTTP/1.1\r\nX: a\x00b\r\n\r\n"),
+        ("cl+te", b"POST / HTTP/1.1\r\nTransfer-Encoding: chunked\r\nContent-Length: 3\r\n\r\n3\r\nabc\r\n0\r\n\r\n"),
+        ("te-repeated", b"POST / HTTP/1.1\r\nTransfer-Encoding: chunked\r\nTransfer-Encoding: chunked\r\n\r\n0\r\n\r\n"),
+        ("te-unsupported", b"POST / HTTP/1.1\r\nTransfer-Encoding: gzip\r\n\r\n"),
+        ("cl-repeated", b"POST / HTTP/1.1\r\nContent-Length: 1\r\nContent-Length: 2\r\n\r\nab"),
+        ("cl-nonnumeric", b"POST / HTTP/1.1\r\nContent-Length: +1\r\n\r\na"),
+        ("cl-digits", b"POST / HTTP/1.1\r\nContent-Length: " + b"0" * 4300 + b"1\r\n\r\na"),
+        ("chunk-size", te + b"g\r\nabc\r\n0\r\n\r\n"), ("chunk-ext", te + b"3;a\x01\r\nabc\r\n0\r\n\r\n"),
+        ("chunk-crlf", te + b"3\r\nabcXY0\r\n\r\n"),
+    ]:
+        cs.append(_case(ok + bad + b"GET /after HTTP/1.1\r\n\r\n", ["class-" + key]))
+        cs.append(_case(bad + b"GET /after HTTP/1.1\r\n\r\n", ["class-" + key]))
     for b in (0x00, 0x09, 0x20, 0x21, 0x7e, 0x80, 0xff):
         cs.append(_case(b"GET /" + bytes([b]) + b"z HTTP/1.1\r\n\r\n", ["target%02x" % b]))
     return cs
@@ -285,8 +331,55 @@ def model_line(c):
     return "run " + H.enc_script(SCRIPT) + " " + H.enc_ops(_ops(c))
 
 
+def enc_ref(ref):
+    """the verdict of the reference parser, in the encoding of lean/TwistedModel/Drv/C19.lean"""
+    msgs = []
+    for item in ref:
+        if item[0] != "req":
+            break
+        _, m, t, v, hs, body, raw, start, stop = item
+        h = "|".join(H.hx(n) + "=" + H.hx(x) for n, x in hs) if hs else "."
+        msgs.append("/".join([H.hx(m), H.hx(t), H.hx(v), h, H.hx(body)]) + f"@{start}+{stop}")
+    last = ref[-1] if ref else ("req",)
+    stop = {"req": "done", "more": "more", "may": "may"}.get(last[0]) or "bad:" + last[1]
+    return "ref=" + (";".join(msgs) if msgs else "none") + " stop=" + stop
+
+
 def run_impl(c):
-    return H.enc_state(H.run_ops(SCRIPT, _ops(c)))
+    # the real server's observables, then the Python reference's reading of the same bytes: the driver line carries the
+    # Lean reference's reading in the same place, so the string comparison of the tie also compares the two references
+    return H.enc_state(H.run_ops(SCRIPT, _ops(c))) + " " + enc_ref(ref_parse(H.unhx(c["stream"])))
+
+
+def _lean_ref(model_out):
+    """[(method, target, body, start, stop)] and the verdict, from the driver's line"""
+    if " ref=" not in model_out or " stop=" not in model_out:
+        return None
+    part = model_out.split(" ref=", 1)[1]
+    msgs, stop = part.split(" stop=", 1)
+    out = []
+    if msgs != "none":
+        for m in msgs.split(";"):
+            fields, span = m.rsplit("@", 1)
+            meth, target, _ver, _hs, body = fields.split("/")
+            a, b = span.split("+")
+            out.append((H.unhx(meth), H.unhx(target), H.unhx(body), int(a), int(b)))
+    return out, stop
+
+
+def compare(c, impl_out, model_out):
+    """tie (server observables) + Lean reference = Python reference (both inside the string), and h11 reads every
+    message the Lean reference found — the octets [start, stop) of the stream — as the same method / target / body"""
+    if impl_out != model_out:
+        return False
+    lr = _lean_ref(model_out)
+    if lr is None:
+        return False
+    stream = H.unhx(c["stream"])
+    for meth, target, body, a, b in lr[0]:
+        if _h11_agrees(stream[a:b], meth, target, None, body) is False:
+            return False
+    return True
 
 
 def _h11_agrees(raw, method, target, headers, body):
@@ -323,7 +416,7 @@ def oracle(c, out):
         return {"key": "exception", "detail": f"{st['raised']} escaped dataReceived; reference: {ref[-1][:2] if ref else None}"}
     for k, item in enumerate(ref):
         if item[0] == "req":
-            _, m, t, v, hs, body, raw = item
+            _, m, t, v, hs, body, raw, _start, _stop = item
             if k >= len(reqs):
                 if st["closed"] and k > 0 and _closing(ref[k - 1]):
                     return None          # the server closed after the previous response: persistence, not framing
@@ -362,7 +455,7 @@ def oracle(c, out):
 def _closing(item):
     if item[0] != "req":
         return False
-    _, m, t, v, hs, body, raw = item
+    _, m, t, v, hs, body, raw, _start, _stop = item
     return v == b"HTTP/1.0" or any(k == b"connection" and b"close" in x.lower() for k, x in hs)
 
 
